@@ -68,6 +68,21 @@ fn exercise(rep: &mut Report, pattern: &str, ctx: &RecCtx, what: &str) -> Option
             None
         }
         Ok(res) => {
+            // a share of the patterns is also used for a record whose message, while being formatted, encodes
+            // another record through the same encoder ("any record")
+            if pattern.len() % 8 == 3 || what == "tail" {
+                let mut inner = ctx.clone();
+                inner.message = "inner é".into();
+                let nest = NestingMsg { enc: &enc, inner: &inner, text: &ctx.message, inner_out: Default::default() };
+                let mut w2 = CapW::new();
+                w2.budget = Some(8 << 20);
+                rep.count("encoded_with_a_nested_encode", 1);
+                if let Err(p) = trap::catch(|| with_record_display(ctx, &nest, |rec| enc.encode(&mut w2, rec))) {
+                    rep.violation(&format!("C11:panic:encode-while-encoding:{}", if p.in_repo() { p.site() } else { "std".into() }),
+                        json!({"pattern": pattern, "family": what, "panic": p.message}));
+                    return None;
+                }
+            }
             if std::str::from_utf8(&w.bytes).is_err() {
                 rep.violation("C11:invalid-utf8", json!({"pattern": pattern, "family": what,
                     "output": String::from_utf8_lossy(&w.bytes)}));
